@@ -14,7 +14,7 @@ from .c19 import shipped
 ID = "C08"
 LEVEL = "exploration"
 RULE = ("(i) ALL imbalance vectors with 1-4 atoms (1-5 in thorough) over the elements occurring in the shipped rule "
-        "databases x charge -2..2, for both shipped databases, through SyntheticRuleMatcher(select='all', "
+        "databases x charge -2..2 (plus, up to 3 atoms, every variant with one element entry negated = a surplus element), for both shipped databases, through SyntheticRuleMatcher(select='all', "
         "ranking='ion_priority').match(); (ii) Hypothesis vectors built as sums of 1-3 database compounds with "
         "multiplicity <=2 plus drawn noise; (iii) every record of both databases against the oracle composition; "
         "(iv) SyntheticRuleImputer.single_impute + RuleConstraint.fit on generated entries and rule-based rows of "
@@ -113,6 +113,8 @@ def check_vector(case):
             res.fail("completion-sum-differs:" + ("charge" if {k for k in set(tot) | set(want) if tot.get(k) != want.get(k)} == {"Q"} else "element"),
                      "sums to imbalance", db=name, vector=vec, solution=sol, sum=tot)
     res.nontrivial = len(sols) > 0
+    if any(v < 0 for k, v in want.items() if k != "Q"):
+        res.tag("mixed-sign-vector")
     if sols:
         res.tag("solvable", "db:" + name)
         if any(len(s) >= 2 for s in sols):
@@ -229,7 +231,11 @@ def sum_vector(draw):
     if draw(st.integers(0, 3)) == 0:
         k = draw(st.sampled_from(db_elements(name) + ["Q"]))
         vec[k] = vec.get(k, 0) + draw(st.integers(-1, 2))
-    vec = {k: v for k, v in vec.items() if (v > 0 or k == "Q") and v != 0}
+    signed = draw(st.integers(0, 5)) == 0
+    vec = {k: v for k, v in vec.items() if (v > 0 or k == "Q" or signed) and v != 0}
+    if signed and len([k for k in vec if k != "Q"]) >= 2:
+        k = draw(st.sampled_from(sorted(k for k in vec if k != "Q")))
+        vec[k] = -abs(vec[k])
     if sum(v for k, v in vec.items() if k != "Q") > 9:
         # keep the exponential search small: scale down to <=9 atoms
         vec = {k: (min(v, 2) if k != "Q" else v) for k, v in vec.items()}
@@ -289,6 +295,13 @@ def _exh_vectors(name, maxatoms):
                 if qv:
                     v["Q"] = qv
                 yield v
+            # mixed-sign vectors (the 'Both'-side handling of the rule-based stage can hand the solver a formula with
+            # a surplus element as a negative entry): nothing can fill a negative entry, so any completion is wrong
+            if n <= 3 and len(vec) >= 2:
+                for neg in vec:
+                    v = dict(vec)
+                    v[neg] = -v[neg]
+                    yield v
 
 
 def _pipe_strategy():
